@@ -21,7 +21,7 @@ import (
 func TestMain(m *testing.M) { rec.Main(m, "C05") }
 
 // ruleMore describes what was added to the exploration in the build phase.
-const ruleMore = "; texts may start with white space and may contain byte sequences that are not UTF-8 (tokens that end before such a byte, and an error at the byte or at the start of the lexeme it ends, are required)"
+const ruleMore = "; single lexemes of 4000..8100 bytes of every kind; texts may start with white space and may contain byte sequences that are not UTF-8 (tokens that end before such a byte, and an error at the byte or at the start of the lexeme it ends, are required)"
 
 const rule = "(1) the coded transition function against a reference automaton built from the documented token table: breadth-first exploration of all reachable (scanner state, reference state) pairs over every ASCII code point, " +
 	"plus every non-ASCII code point of Unicode for every reachable scanner state (complete enumeration): dead iff dead, same token kind (keyword over identifier), lexeme trimming, skip vs lexeme; " +
@@ -343,6 +343,73 @@ func TestReplay(t *testing.T) {
 	if err := checkText(in.Text); err != nil {
 		rec.Fail(t, "text", in, "%v", err)
 	}
+}
+
+// ---------- lexemes longer than one half of the reader's buffer ----------
+
+const longLexemeKey = "lexeme-longer-than-the-buffer"
+
+// TestLongLexemes: single tokens and comments of 4095..8100 bytes between two short tokens (the documented token
+// table bounds no lexeme). Texts are shifted by leading blanks until no lexeme ends at the last byte of a buffer half
+// (the class of the listed dependency finding of C13). Beyond the reader's whole buffer (2 x 4096 bytes) the
+// dependency returns a corrupted lexeme: listed finding, probed here.
+func TestLongLexemes(t *testing.T) {
+	rec.Begin(t)
+	rec.Rule(rule + ruleMore)
+	if rec.Shard() != 0 {
+		t.Skip("seed independent: shard 0 only")
+	}
+	mk := func(kind string, n int) string {
+		switch kind {
+		case "STRING":
+			return `"` + strings.Repeat("ab", n/2) + `"`
+		case "REGEX":
+			return "/" + strings.Repeat("[a-z]|", n/6) + "x/"
+		case "IDENT":
+			return "i" + strings.Repeat("d_9", n/3)
+		case "TOKEN":
+			return "T" + strings.Repeat("K_9", n/3)
+		case "PREDEF":
+			return "$P" + strings.Repeat("D_9", n/3)
+		case "LINE":
+			return "// " + strings.Repeat("c ", n/2) + "\n"
+		}
+		return "/* " + strings.Repeat("c*", n/2) + " */"
+	}
+	// the listed finding: a lexeme that does not fit into the reader's buffer
+	{
+		lit := mk("STRING", 8400)
+		toks, _, _ := scanImpl("x " + lit + " y")
+		present := !(len(toks) == 3 && toks[1].Lexeme == lit[1:len(lit)-1])
+		if rec.Known(longLexemeKey, present) {
+			rec.Assume("listed finding " + longLexemeKey + ": lexemes stay below 8190 bytes")
+		}
+	}
+	n := 0
+	for _, kind := range []string{"STRING", "REGEX", "IDENT", "TOKEN", "PREDEF", "LINE", "BLOCK"} {
+		for _, size := range []int{4000, 4095, 4096, 4097, 4200, 5000, 6000, 8000, 8100} {
+			for _, lead := range []string{"x ", "x = ", "\n\n  grammar g; "} {
+				var text string
+				ok := false
+				for shift := 0; shift < 12 && !ok; shift++ {
+					text = strings.Repeat(" ", shift) + lead + mk(kind, size) + " y ;"
+					ok = true
+					for _, b := range scanner.Boundaries(text + "\n") {
+						ok = ok && b%4096 != 4095
+					}
+				}
+				if !ok {
+					continue
+				}
+				n++
+				rec.Case(text, true, "lexeme_longer_than_a_buffer_half", "long_"+kind)
+				if err := checkText(text); err != nil {
+					rec.Fail(t, "text", mkInput(text), "%v", err)
+				}
+			}
+		}
+	}
+	rec.Count("long_lexeme_texts", n)
 }
 
 // ---------- native fuzz target (thorough tier; `go test -fuzz`) ----------
